@@ -186,11 +186,20 @@ def call_entry(entry, rec, dt, periods, xi):
     if entry == 'AccSignal.response_series[preset,default xi]':
         s = eqsig.AccSignal(rec, dt, response_times=np.array(periods))
         return s.response_series()
+    if entry == 'sdof.response_series[int32 record]':
+        return sdof.response_series(rec.astype(np.int32), dt, np.array(periods), xi)
+    if entry == 'sdof.response_series[float32 record]':
+        return sdof.response_series(rec.astype(np.float32), dt, np.array(periods), xi)
+    if entry == 'AccSignal.response_series[int record]':
+        s = eqsig.AccSignal(rec.astype(np.int64), dt)
+        return s.response_series(response_times=np.array(periods), xi=xi)
     raise KeyError(entry)
 
 
 ENTRIES = ['sdof.response_series', 'sdof.response_series[list]', 'sdof.nigam_and_jennings_response',
            'AccSignal.response_series[arg]', 'AccSignal.response_series[preset,default xi]']
+# records stored with another dtype (digitiser counts, single precision): the response is that of the same numbers as float64
+DTYPE_ENTRIES = ['sdof.response_series[int32 record]', 'sdof.response_series[float32 record]', 'AccSignal.response_series[int record]']
 
 
 def mk_case(entry, rec, dt, periods, xi, cfs, out, rtol, klass, glob=False):
@@ -283,6 +292,9 @@ def run(rep, rng, tier):
         entry = ENTRIES[k % len(ENTRIES)]
         if entry.endswith('default xi]'):
             xi = 0.05
+        if k % 7 == 6:
+            entry = DTYPE_ENTRIES[(k // 7) % len(DTYPE_ENTRIES)]
+            rec = np.round(rec * 8) if 'int' in entry else np.array(rec, dtype=np.float32).astype(float)
         cfs = guarded(coeff_lists, xi, periods, dt)
         out = guarded(call_entry, entry, rec, dt, periods, xi)
         for r in (cfs, out):
